@@ -266,3 +266,34 @@ Print Assumptions C13_robust_bytes.
 Print Assumptions C13_robust_own_nick.
 Print Assumptions C13_example_session.
 Print Assumptions C13_example_hostile.
+
+(* generated-code tie, stage 2: state handlers.  Gen/GoFuncs.v holds the Gallina TRANSLATION of the
+   Go bodies of h_STNICK, h_PART, h_KICK, h_QUIT, h_TOPIC, h_324, h_332, h_671 (conn.st as an option
+   of an abstract state with the Tracker interface as a record of functions).  For EVERY Tracker
+   record whose methods are TrackerSpec's sp_* (GenEqState.spec_tracker; satisfiable:
+   spec_as_tracker), each, started with tracking on, returns the model handler's final tracker
+   state and is Panic exactly when the model panics.  NOT covered by this tie: h_JOIN, h_MODE,
+   h_311, h_352 (Nick.Equals) and h_353 (fallthrough in a loop) — see notes/design-go2coq.md. *)
+From Verif Require GoFuncs GenEqState.
+Theorem gen_C13_state_handlers : forall trk, GenEqState.spec_tracker trk -> forall t l,
+  GoFuncs.go_client_Conn_h_STNICK trk (Some t) (Line.l_args l) (Line.l_nick l)
+    = GenEqState.of_hres (StateHandlers.h_STNICK l (GenEqState.hst0 t))
+  /\ GoFuncs.go_client_Conn_h_PART trk (Some t) (Line.l_args l) (Line.l_nick l)
+    = GenEqState.of_hres (StateHandlers.h_PART l (GenEqState.hst0 t))
+  /\ GoFuncs.go_client_Conn_h_KICK trk (Some t) (Line.l_args l)
+    = GenEqState.of_hres (StateHandlers.h_KICK l (GenEqState.hst0 t))
+  /\ GoFuncs.go_client_Conn_h_QUIT trk (Some t) (Line.l_nick l)
+    = GenEqState.of_hres (StateHandlers.h_QUIT l (GenEqState.hst0 t))
+  /\ GoFuncs.go_client_Conn_h_TOPIC trk (Some t) (Line.l_args l)
+    = GenEqState.of_hres (StateHandlers.h_TOPIC l (GenEqState.hst0 t))
+  /\ GoFuncs.go_client_Conn_h_324 trk (Some t) (Line.l_args l)
+    = GenEqState.of_hres (StateHandlers.h_324 l (GenEqState.hst0 t))
+  /\ GoFuncs.go_client_Conn_h_332 trk (Some t) (Line.l_args l)
+    = GenEqState.of_hres (StateHandlers.h_332 l (GenEqState.hst0 t))
+  /\ GoFuncs.go_client_Conn_h_671 trk (Some t) (Line.l_args l)
+    = GenEqState.of_hres (StateHandlers.h_671 l (GenEqState.hst0 t)).
+Proof. exact GenEqState.go_state_handlers_eq. Qed.
+Example gen_C13_tracker_instance : GenEqState.spec_tracker GenEqState.spec_as_tracker.
+Proof. exact GenEqState.spec_as_tracker_ok. Qed.
+Print Assumptions gen_C13_state_handlers.
+Print Assumptions gen_C13_tracker_instance.
